@@ -22,7 +22,7 @@ func init() {
 			"oracle: the answer is within (alpha+64u) of some absorbed item whose cumulative-weight interval is within distance 1 of q*(W-1), lies within [GetMinValue, GetMaxValue], is >=0 if nothing negative was absorbed, <=0 if nothing positive, and 0 only if the zero bucket holds weight. " +
 			"Non-trivial = W<1 or >=1 non-integer weight; distinct = hash of (mapping, store, items).",
 		Cases:     core.Scale(150000, 4000000),
-		Mandatory: []string{"oracle.weighted_quantile_checks", "total_weight.lt1", "total_weight.ge1", "reached_by.reweight", "reached_by.weighted_adds", "query.on_interval_boundary"},
+		Mandatory: []string{"oracle.weighted_quantile_checks", "total_weight.lt1", "total_weight.ge1", "reached_by.reweight", "reached_by.weighted_adds", "reached_by.reweight_then_more_adds", "query.on_interval_boundary"},
 		Run:       runC11,
 	})
 	core.Register(&core.Prop{
@@ -92,17 +92,31 @@ func runC11(c *core.Ctx) {
 		}
 		items = append(items, mon.Item{V: v, W: w})
 	}
-	for _, it := range items {
-		c.SigF(it.V)
-		c.SigF(it.W)
-		var err error
-		if c.Guard("AddWithCount", func() { err = s.I().AddWithCount(it.V, it.W) }) {
-			return
+	// when the sketch is reweighted, part of the items may be absorbed after the reweighting
+	var late []mon.Item
+	if viaReweight && len(items) >= 2 && r.P(0.5) {
+		k := r.Range(1, len(items)-1)
+		late = append(late, items[k:]...)
+		items = items[:k]
+		c.Count("reached_by.reweight_then_more_adds", 1)
+	}
+	addAll := func(list []mon.Item) bool {
+		for _, it := range list {
+			c.SigF(it.V)
+			c.SigF(it.W)
+			var err error
+			if c.Guard("AddWithCount", func() { err = s.I().AddWithCount(it.V, it.W) }) {
+				return false
+			}
+			if err != nil {
+				c.Failf("AddWithCount.rejected", "AddWithCount(%v,%v) returned %v", it.V, it.W, err)
+				return false
+			}
 		}
-		if err != nil {
-			c.Failf("AddWithCount.rejected", "AddWithCount(%v,%v) returned %v", it.V, it.W, err)
-			return
-		}
+		return true
+	}
+	if !addAll(items) {
+		return
 	}
 	if viaReweight {
 		c.Count("reached_by.reweight", 1)
@@ -141,6 +155,21 @@ func runC11(c *core.Ctx) {
 			}
 		}
 		c.Logf("Reweight(%v)", f)
+		if len(late) > 0 {
+			// late items keep the (already small or scaled) weights they were drawn with, scaled like the rest so
+			// that the total stays in the intended range
+			for i := range late {
+				late[i].W *= f
+				if late[i].W != math.Floor(late[i].W) {
+					nonInteger = true
+				}
+			}
+			c.Logf("then %d more weighted additions", len(late))
+			if !addAll(late) {
+				return
+			}
+			items = append(items, late...)
+		}
 	} else {
 		c.Count("reached_by.weighted_adds", 1)
 	}
